@@ -20,7 +20,7 @@ def tally(prefix):
         first_ok += bool(tr) and tr[0]["result"].startswith("CAUGHT")
         final_ok += any(t["result"].startswith("CAUGHT") for t in tr)
     return tot, first_ok, final_ok
-r1, r2, r3, r4, r5 = tally("C*-*"), tally("R2-C*-*"), tally("R3-C*-*"), tally("R4-C*-*"), tally("R5-C*-*")
+r1, r2, r3, r4, r5, r6 = tally("C*-*"), tally("R2-C*-*"), tally("R3-C*-*"), tally("R4-C*-*"), tally("R5-C*-*"), tally("R6-C*-*")
 summary = f"""Round 1 (`C??-n`, two changes per property, free choice of defect): {r1[0]} changes, {r1[1]} caught at the
 first trial, {r1[2]} caught after strengthening. Round 2 (`R2-C??-n`, two more per property; the agents were
 asked for defects that need *scale, a long history or an unusual-but-legal input* to manifest, because
@@ -44,7 +44,11 @@ representations, early exits, off-by-one at the ends, state left by a failed ope
 mixed-case host names generated to catch it made C11 fail on the unchanged tree instead (`||WWW.host^`, a genuine
 defect, fixed in /repo), after which the seeded change no longer changes behaviour. Many round-5 changes
 re-discovered earlier root causes (first-match-then-tag-test, empty pattern lost in fusion, tags dropped by a
-failed load, content-keyed regex cache), which is why most were caught at once. Apart from those two oracle weaknesses every miss was a generator-reach problem (sizes, depths,
+failed load, content-keyed regex cache), which is why most were caught at once. Round 6 (`R6-C??-n`) repeats
+round 1's prompt word for word (free choice) against the final checks, as a before/after measurement:
+{r6[0]} changes, {r6[1]} caught at the first trial (round 1: {r1[1]} of {r1[0]}), {r6[2]} after strengthening (whole-URL
+prefix families, a failing reload in C07's histories, the normalised URL compared as a whole, negated types in
+C14, a dense cosmetic phase in C19). Apart from those two oracle weaknesses every miss was a generator-reach problem (sizes, depths,
 lengths, histories, entry points, spellings); each strengthening widened the generated domain and was followed
 by a multi-seed silence run on the unchanged tree.
 
